@@ -60,6 +60,29 @@ func main() {
 				fmt.Println(shortName(fn))
 			}
 		}
+	case "variants":
+		// mixvet variants <ID> [substr]: run the self-test corpus only
+		only := ""
+		if len(os.Args) > 3 {
+			only = os.Args[3]
+		}
+		rs, err := runVariants(os.Args[2], only)
+		if err != nil {
+			fmt.Fprintln(os.Stderr, err)
+			os.Exit(2)
+		}
+		bad := 0
+		for _, r := range rs {
+			st := "FIRED "
+			if !r.Fired {
+				st = "MISSED"
+				bad++
+			}
+			fmt.Printf("%s %s %s\n", st, r.Name, r.Detail)
+		}
+		if bad > 0 {
+			os.Exit(1)
+		}
 	case "check":
 		if len(os.Args) < 3 {
 			usage()
@@ -93,6 +116,9 @@ func main() {
 			c := &Check{ID: id, Tier: tier, W: w}
 			if lerr == nil {
 				runProp(c, f)
+				if tier == "thorough" && os.Getenv("MIXVET_REPO") == "" {
+					c.variantsObligations()
+				}
 			}
 			if r := c.Finish(start, lerr); r > rc {
 				rc = r
